@@ -757,12 +757,13 @@ Fixpoint stk_ok (stk : list frame) : bool :=
   | f :: r => above_ok f (match r with [] => None | g :: _ => Some g end) && stk_ok r
   end.
 
-Definition bottom (stk : list frame) : option frame := match rev stk with [] => None | x :: _ => Some x end.
-Definition hd_bottom (stk : list frame) (h : N) : bool :=
-  match bottom stk with
-  | Some (HD2 h' _) | Some (HD3 h' _ _) | Some (HD4 h') => h' =? h
+(* HD frames only occur at the bottom of a stack (stk_ok); the thread is inside mi_heap_delete(h) *)
+Definition is_hd_of (h : N) (fr : frame) : bool :=
+  match fr with
+  | HD2 h' _ | HD3 h' _ _ | HD4 h' => h' =? h
   | _ => false
   end.
+Definition hd_bottom (stk : list frame) (h : N) : bool := existsb (is_hd_of h) stk.
 (* the owner is inside _mi_page_queue_append for page p of heap h (xheap stored, spinning on the flag) *)
 Definition absorbing (stk : list frame) (p h : N) : bool :=
   match stk with
@@ -846,7 +847,9 @@ Definition del_b (c : cfg) : bool :=
   forallb (fun kv => forallb (del_ok c (fst kv)) (hp_del (snd kv))) (c_hp c).
 Definition fr_ok (c : cfg) (t : N) (th : thread) (fr : frame) : bool :=
   match fr with
-  | TU1 p _ _ _ _ | TU2 p _ _ _ _ _ _ | TC1 p | TC2 p _ _ | FC1 p _ | FC2 p _ | HC4 _ _ p _ => own (getp c p) t
+  | TC1 p | TC2 p _ _ | FC1 p _ | FC2 p _ | HC4 _ _ p _ => own (getp c p) t
+  | TU1 p d _ _ _ => own (getp c p) t && negb (flag_eqb d Freeing) && negb (flag_eqb d NoD)
+  | TU2 p d _ _ _ f _ => own (getp c p) t && negb (flag_eqb d Freeing) && negb (flag_eqb d NoD) && negb (flag_eqb f Freeing)
   | TC3 p tl => own (getp c p) t && forallb (onp p) tl
   | PF p => own (getp c p) t && (pg_used (getp c p) =? 0)
   | DP1 h | DP2 h _ | DA h | HC2 h _ | HC3 h _ _ => hown (geth c h) t
@@ -867,19 +870,23 @@ Definition frames_b (c : cfg) : bool :=
 (* mi_heap_delete: pages still to be moved; nothing is left behind when the heap is freed *)
 Definition has_af (stk : list frame) : bool :=
   existsb (fun fr => match fr with DP3 _ _ af | DP4 _ _ _ af | DP6 _ _ _ af => af | _ => false end) stk.
-Definition hd_ok (c : cfg) (th : thread) : bool :=
-  match bottom (th_stk th) with
-  | Some (HD3 h _ ps) =>
+(* under mi_heap_delete's final _mi_heap_delayed_free_all: nothing has been (re-)pushed since the last take-over *)
+Definition hd4_quiet (stk : list frame) (ret : bool) : bool :=
+  match stk with
+  | HD4 _ :: _ => true
+  | DA _ :: _ => ret
+  | _ => has_af stk
+  end.
+Definition hd_fr_ok (c : cfg) (th : thread) (fr : frame) : bool :=
+  match fr with
+  | HD3 h _ ps =>
     forallb (fun kv => negb (pg_alive (snd kv) && oN_eqb (pg_heap (snd kv)) (Some h)) || memN (fst kv) ps) (c_pg c)
-  | Some (HD4 h) =>
+  | HD4 h =>
     forallb (fun kv => negb (pg_alive (snd kv) && oN_eqb (pg_heap (snd kv)) (Some h))) (c_pg c)
-    && (negb (match th_stk th with
-              | [HD4 _] => true
-              | [DA _; HD4 _] => th_ret th
-              | stk => has_af stk
-              end) || isnil (hp_del (geth c h)))
+    && (negb (hd4_quiet (th_stk th) (th_ret th)) || isnil (hp_del (geth c h)))
   | _ => true
   end.
+Definition hd_ok (c : cfg) (th : thread) : bool := forallb (hd_fr_ok c th) (th_stk th).
 Definition hd_b (c : cfg) : bool := forallb (fun kv => hd_ok c (snd kv)) (c_th c).
 
 Definition inv_b (c : cfg) : bool :=
